@@ -16,7 +16,8 @@ between parameters.
 Output: model-canon = the model (interpreting the *regenerated* table, with the same reads and the
 same cluster oracle), impl-canon = the implementation's items, verdict = the Spec machine
 (Spec/VT500.lean) run on the same bytes, compared with the implementation after merging adjacent
-`Print`s and dropping `error` items. -/
+`Print`s and dropping `error` items; numbers are rendered as Go delivers them (CSI values wrap in a
+64-bit int, a DCS with a value ≥ 2^63 has nil parameters), so overflowing parameters are judged too. -/
 namespace VaxisModel.Driver.C02
 open VaxisModel.Driver VaxisModel.Model.Parser VaxisModel.Model.ParserIO
 
@@ -48,14 +49,21 @@ def itemTok : Item → String
   | .print g => s!"P:{runes g}"
   | .seq s => seqTok s
 
+/-- A Spec number as Go delivers it in a CSI (`Props.C02Refine.codec_csi_holds`): mod 2^64, signed. -/
+def goI (n : Nat) : Int := wrap64 (Int.ofNat n)
+
+/-- Spec DCS parameters as `hook` delivers them (`codec_dcs_holds`): nil if one does not fit an `int`. -/
+def goD (p : List Nat) : List Int :=
+  if p.all (fun x => decide (x < 9223372036854775808)) then p.map Int.ofNat else []
+
 def specTok : Spec.VT500.Item → String
   | .print r => s!"P:{hexNat r}"
   | .c0 r => s!"C:{hexNat r}"
   | .esc i f => s!"E:{runes i}:{hexNat f}"
   | .ss3 r => s!"S:{hexNat r}"
-  | .csi i p f => s!"I:{runes i}:{csiParams (p.map (·.map Int.ofNat))}:{hexNat f}"
+  | .csi i p f => s!"I:{runes i}:{csiParams (p.map (·.map goI))}:{hexNat f}"
   | .osc p => s!"O:{runes p}"
-  | .dcs f i p d => s!"D:{hexNat f}:{runes i}:{intsComma (p.map Int.ofNat)}:{runes d}"
+  | .dcs f i p d => s!"D:{hexNat f}:{runes i}:{intsComma (goD p)}:{runes d}"
   | .apc d => s!"A:{runes d}"
 
 /-- Print token with invalid bytes marked `~xx` (for naming the invalid-byte deviation). -/
@@ -88,12 +96,6 @@ def mergePrints : List String → List String
   | l => l
 termination_by l => l.length
 
-def tooBig (it : Spec.VT500.Item) : Bool :=
-  match it with
-  | .csi _ p _ => p.any (·.any (· ≥ 9223372036854775808))
-  | .dcs _ _ p _ => p.any (· ≥ 9223372036854775808)
-  | _ => false
-
 /-- offsets → cluster length -/
 def parseClusters (s : String) : Option (List (Nat × Nat)) :=
   if s = "-" ∨ s = "" then some [] else
@@ -123,7 +125,6 @@ def verdict (bytes : List Nat) (impl : String) : String :=
     let rsM := Spec.VT500.decodeMarked bytes
     let rs := rsM.map Spec.VT500.unmark
     let (out, flush) := Spec.VT500.run rs
-    if (out ++ flush).any tooBig then "-" else
     let agrees (o f : List Spec.VT500.Item) : Bool :=
       body = mergePrints (o.map specTok) || body = mergePrints ((o ++ f).map specTok)
     if agrees out flush then "ok" else
